@@ -117,4 +117,19 @@ def run(ctx):
                 t, tid = cz.compile_traces(circuit, tid, rng, settings=(1,),
                                            meta={"kind": "order", "wrapper": w, "reg": reg, "phase_first": bool(pre)})
                 runs += t
+    # one long-lived circuit per register type whose wrapper is exchanged in place (replace_op) and which is compiled
+    # after every exchange - as the solvers do when they merge gates into an existing wrapper
+    for reg in (["p", 0], ["e", 0]):
+        prog = [{"k": "Hadamard", "r": [["e", 0]], "c": None}, {"k": "CNOT", "r": [["e", 0], ["p", 0]], "c": None},
+                {"k": "Phase", "r": [reg], "c": None}, {"k": "OneQubitGateWrapper", "r": [reg], "c": None, "w": names[0]}]
+        circuit = cz.build_circuit(1, 1, 0, prog)
+        node = max(n_ for n_ in circuit.dag.nodes if isinstance(n_, int))
+        for w in names[1:] if not ctx.quick else names[1::2]:
+            t, tid = cz.compile_traces(circuit, tid, rng, settings=(1,), backends=("stabilizer",),
+                                       meta={"kind": "order-after-replace", "reg": reg})
+            runs += t
+            circuit.sequence(unwrapped=True)          # the long-lived object itself is read before it is edited
+            circuit.replace_op(node, cz.build_op({"k": "OneQubitGateWrapper", "r": [reg], "c": None, "w": w}))
+        t, tid = cz.compile_traces(circuit, tid, rng, settings=(1,), meta={"kind": "order-after-replace", "reg": reg})
+        runs += t
     ctx.judge("Trace_CircuitRun", runs, label="J: wrapper order convention in both backends (Choi state)")
